@@ -2026,6 +2026,10 @@ def compare(c, io, drv):
         if ill_conditioned(c):
             return []
         cmp_resp(c, io, drv["model"], "model", "model", out, drv["ctor_model"])
+        if "gen" in drv:
+            # the definitions regenerated from the source under test (Gen/C12Src.lean), run by the driver: cross-check of
+            # the translator (it follows the source, so under an edited source it agrees with the impl, not with the model)
+            cmp_resp(c, io, drv["gen"], "regenerated definition", "model", out, drv["ctor_model"])
         cmp_resp(c, io, drv["spec"], "spec", "spec", out, drv["ctor_spec"])
         if "spec_terms" in drv and drv["spec_terms"] != drv["spec"] and not drv["ctor_spec"]:
             out.append(("spec", "the dict form of the specification differs from the dense one: %r vs %r"
@@ -2059,16 +2063,16 @@ def compare(c, io, drv):
                     out.append((tag, "dft is not linear (%s): impl=%r %s=%r" % (side, got, tag, d)))
         return out
     if "err" in io:
-        for tag in ("model", "spec"):
+        for tag in ("model", "spec") + (("gen",) if e == "dft" and "gen" in drv else ()):
             d = drv[tag]
             if not (isinstance(d, dict) and d.get("err") == io["err"]):
-                out.append((tag, "%s: impl raised %s, %s gives %r" % (e, io["err"], tag, d)))
+                out.append((tag if tag != "gen" else "model", "%s: impl raised %s, %s gives %r" % (e, io["err"], tag, d)))
         return out
     if e == "dft":
-        for tag in ("model", "spec"):
+        for tag in ("model", "spec") + (("gen",) if "gen" in drv else ()):     # gen: the regenerated body, see "freq"
             d = drv[tag]
             if isinstance(d, dict) or not lclose(io["vals"], d, TOL):
-                out.append((tag, "dft differs from %s: impl=%r %s=%r" % (tag, io["vals"], tag, d)))
+                out.append((tag if tag != "gen" else "model", "dft differs from %s: impl=%r %s=%r" % (tag, io["vals"], tag, d)))
         return out
     if e == "fir":
         exact = c["ctype"] in ("int", "dyadic")
